@@ -89,8 +89,26 @@ def run(prog, rep, tier, repo):
                 uf = ix.equalities(bb)
                 if not uf.same(inner_a, inner_b):
                     ok = False
+            helper = None
+            if not ok:
+                # the comparison may sit in a shape helper (`product_dims((rows_a, cols_a, ta), (rows_b, cols_b, tb))` with the assert inside):
+                # an in-crate callee that can panic, is given both operands' dimensions and lies on every path to the return is not read here
+                atoms_a = {z for z in subterms(inner_a) if tag(z) in ('arg', 'len')}
+                atoms_b = {z for z in subterms(inner_b) if tag(z) in ('arg', 'len')}
+                for c_ in g.calls():
+                    if not c_.path or c_.path not in pdb.bodies or c_.path in (U + 'matmul', U + 'matmul_blocked', U + 'transpose', U + 'is_matrix'):
+                        continue
+                    h_ = prog.func(c_.path)
+                    if h_ is None or not h_.cfg.panics:
+                        continue
+                    at_ = {z for a_ in c_.args for z in subterms(a_)}
+                    if (atoms_a & at_) and (atoms_b & at_) and all(g.cfg.dominates(c_.bb, bb) for bb in rets_bb):
+                        helper = c_.path
             if ok:
                 rep.ok('conformable', key, 'assert_eq!(%s, %s) dominates the accumulation' % (show(inner_a)[:40], show(inner_b)[:40]))
+            elif helper:
+                rep.undecided('conformable', key, 'no comparison of the inner dimensions in %s itself; %s receives both operands\' dimensions and can panic (its test is not read)' % (
+                    fn, short(helper)), site_of(f.body), proof=False)
             else:
                 rep.viol('conformable', key, '%s does not compare the inner dimensions %s and %s before multiplying: non-conformable operands whose '
                          'first factor is narrower yield a value instead of a panic' % (fn, show(inner_a)[:50], show(inner_b)[:50]), site_of(f.body))
